@@ -210,6 +210,14 @@ class Family:
     def expandable(self, m):
         return self.valid(m)
 
+    STRICT = {"attr", "set", "set3", "unset", "item_set", "setitem", "type_set", "token_set", "params_assign", "params_item"}
+
+    def strict(self, op):
+        """is op an assignment (header must equal the view's serialisation afterwards even if nothing changed)?"""
+        if op[0] == "attr_set":
+            return op[2] is not None and op[2] is not False     # None / False mean "remove": removing nothing is a no-op
+        return op[0] in self.STRICT
+
 
 # ----------------------------------------------------------------------------- engine
 
@@ -296,8 +304,10 @@ def step(fam, ctx, M, op, check=True):
         else:
             fired = fam.merge(hp, new)
             cands = [(fired, new)]
-            if fam.view_content(new) == fam.view_content(base) and fired != hp:
-                # the call did not change the view's contents: whether a stale header is rewritten is not stated
+            if fam.view_content(new) == fam.view_content(base) and fired != hp and (exp.lenient or not fam.strict(op)):
+                # a container call that did not change the view's contents (clear() on an empty view, pop of a
+                # missing key ...): whether a stale header is rewritten is not stated.  An attribute or item
+                # ASSIGNMENT is a mutation step even when the value equals what the view holds: no leniency.
                 cands.append((hp, new))
     if exp.nocheck or not check:
         if len(cands) > 1:
